@@ -29,13 +29,13 @@ from units import c09_dispatch as D
 
 NAME = "c05_ctors"
 ENGINE = "verus"
-PROPS = ("C05", "C09", "C12", "C11")
+PROPS = ("C05", "C09", "C12", "C11", "C04")
 MSMOD, TYPES, EXT, CORR, MALL = _tree.MSMOD, _tree.TYPES, _tree.EXT, _tree.CORR, _tree.MALL
 LIB = "src/lib.rs"
 SEGWIT, SH = "src/descriptor/segwitv0.rs", "src/descriptor/sh.rs"
 COMPILER = "src/policy/compiler.rs"
 MSIMPL = "mod:private/impl:Miniscript<Pk, Ctx>"
-A = ("C05", "C09")            # annotation clauses
+A = ("C05", "C09", "C04")     # annotation clauses (C04: decode builds its result through these constructors and promises the identical type)
 
 DROPPED = [
     "Miniscript::from_components_unchecked: documented as unchecked (the caller supplies ty / ext); only its frame "
